@@ -1422,7 +1422,9 @@ int run_prop(uint64_t seed, const std::string& tier, const std::string& outdir)
     // fixed reproduction decks of recorded findings (every difference under one key)
     for (auto [file, key, rs] : { std::tuple<const char*, const char*, int>{"NOCONTROL.DATA", "rstsched.well-without-controls", 2},
                                   {"UDA_WELTARG.DATA", "sched.uda-replaced-by-weltarg", 2},
-                                  {"EMPTY_WLIST.DATA", "rstsched.emptied-well-list", 2} }) {
+                                  {"EMPTY_WLIST.DATA", "rstsched.emptied-well-list", 2},
+                                  {"ACTIONX_CONSTANT.DATA", "rstsched.actionx-constant-reformatted", 2},
+                                  {"ACTIONX_DATEPAREN.DATA", "rstsched.actionx-date-parenthesis", 2} }) {
         const std::string path = std::string(VERIF_DIR) + "/design.d/C05.repro/" + file;
         try {
             const auto deck = parse(path, true);
